@@ -86,3 +86,274 @@ Proof.
   unfold uadd. replace (off c + len bs <? USIZE) with true by lia. cbn [bind data].
   unfold at_bytes in Hat. rewrite Hat. rewrite take_app_exact. reflexivity.
 Qed.
+
+(* ---------- slots: what a layout puts on / takes from the wire *)
+Inductive slot := SPrim (p : prim) | SBytes (k : Z).
+
+Fixpoint rslots (rl : list ritem) : list slot :=
+  match rl with
+  | [] => []
+  | RRead _ p _ :: r => SPrim p :: rslots r
+  | RAssert _ _ :: r => rslots r
+  | REnum _ p _ :: r => SPrim p :: rslots r
+  | RTrunc _ p _ :: r => SPrim p :: rslots r
+  | RBytes _ k :: r => SBytes k :: rslots r
+  end.
+Fixpoint wslots (wl : list witem) : list slot :=
+  match wl with
+  | [] => []
+  | WField _ p :: r => SPrim p :: wslots r
+  | WConst p _ :: r => SPrim p :: wslots r
+  | WHole _ p :: r => SPrim p :: wslots r
+  | WEnum _ p _ :: r => SPrim p :: wslots r
+  | WBytes _ k :: r => SBytes k :: wslots r
+  end.
+
+Fixpoint enc_slots (sl : list slot) (ws : list Z) : list Z :=
+  match sl with
+  | [] => []
+  | SPrim p :: r => write_prim p (hd 0 ws) ++ enc_slots r (tl ws)
+  | SBytes k :: r => firstn (Z.to_nat k) ws ++ enc_slots r (skipn (Z.to_nat k) ws)
+  end.
+Fixpoint slots_ok (sl : list slot) (ws : list Z) : Prop :=
+  match sl with
+  | [] => True
+  | SPrim p :: r => prim_in_range p (hd 0 ws) = true /\ slots_ok r (tl ws)
+  | SBytes k :: r => 0 <= k /\ (Z.to_nat k <= length ws)%nat /\ slots_ok r (skipn (Z.to_nat k) ws)
+  end.
+
+(* the reader as a pure function of the wire values (no cursor): what it keeps, or BadValue *)
+Fixpoint pure_items (rl : list ritem) (env : list (fname * Z)) (ws : list Z) : outcome (list Z) :=
+  match rl with
+  | [] => Ok []
+  | RRead n p keep :: r =>
+      vs <- pure_items r ((n, hd 0 ws) :: env) (tl ws) ;; Ok (if keep then hd 0 ws :: vs else vs)
+  | RAssert n k :: r =>
+      match lookup n env with
+      | Some v => if v =? k then pure_items r env ws else Err BadValue
+      | None => Panic
+      end
+  | REnum n p vals :: r =>
+      if mem_z (hd 0 ws) vals then
+        vs <- pure_items r ((n, hd 0 ws) :: env) (tl ws) ;; Ok (hd 0 ws :: vs)
+      else Err BadValue
+  | RTrunc n p mask :: r =>
+      vs <- pure_items r ((n, Z.land (hd 0 ws) mask) :: env) (tl ws) ;; Ok (Z.land (hd 0 ws) mask :: vs)
+  | RBytes n k :: r =>
+      vs <- pure_items r env (skipn (Z.to_nat k) ws) ;; Ok (firstn (Z.to_nat k) ws ++ vs)
+  end.
+
+Lemma advanced_trans c c1 c2 r1 r2 : advanced c c1 r1 -> advanced c1 c2 r2 -> advanced c c2 r2.
+Proof. intros [_ [H1 _]] [H2 [H3 H4]]. unfold advanced. rewrite <- H1. auto. Qed.
+
+Lemma firstn_len_Z {A} (l : list A) k : 0 <= k -> (Z.to_nat k <= length l)%nat -> len (firstn (Z.to_nat k) l) = k.
+Proof. intros. unfold len. rewrite firstn_length. lia. Qed.
+
+(* Theorem A: on bytes produced by `enc_slots`, the reader is its pure part and ends exactly at `rest` *)
+Lemma read_items_pure rl : forall env c ws rest,
+  cgood c -> slots_ok (rslots rl) ws -> at_bytes c (enc_slots (rslots rl) ws ++ rest) ->
+  exists c', advanced c c' rest /\ read_items rl env c = (vs <- pure_items rl env ws ;; Ok (vs, c')).
+Proof.
+  induction rl as [|it rl IH]; intros env c ws rest Hg Hok Hat.
+  - exists c. cbn in *. split; [|reflexivity]. unfold advanced. auto.
+  - destruct it as [n p keep|n k|n p vals|n p mask|n k]; cbn [rslots enc_slots slots_ok] in *.
+    + destruct Hok as [Hr Hok]. rewrite <- app_assoc in Hat.
+      destruct (read_prim_layout p c _ _ Hg Hr Hat) as [c1 [E1 A1]].
+      destruct (IH ((n, hd 0 ws) :: env) c1 (tl ws) rest (proj1 A1) Hok (proj2 (proj2 A1))) as [c2 [A2 E2]].
+      exists c2. split; [eapply advanced_trans; eassumption|].
+      cbn [read_items pure_items]. rewrite E1. cbn [bind]; cbv beta iota. rewrite E2.
+      destruct (pure_items rl _ _); reflexivity.
+    + destruct (IH env c ws rest Hg Hok Hat) as [c2 [A2 E2]]. exists c2. split; [exact A2|].
+      cbn [read_items pure_items]. destruct (lookup n env); [|reflexivity].
+      destruct (z =? k); [exact E2|reflexivity].
+    + destruct Hok as [Hr Hok]. rewrite <- app_assoc in Hat.
+      destruct (read_prim_layout p c _ _ Hg Hr Hat) as [c1 [E1 A1]].
+      destruct (IH ((n, hd 0 ws) :: env) c1 (tl ws) rest (proj1 A1) Hok (proj2 (proj2 A1))) as [c2 [A2 E2]].
+      exists c2. split; [eapply advanced_trans; eassumption|].
+      cbn [read_items pure_items]. rewrite E1. cbn [bind]; cbv beta iota.
+      destruct (mem_z (hd 0 ws) vals); [|reflexivity]. rewrite E2.
+      destruct (pure_items rl _ _); reflexivity.
+    + destruct Hok as [Hr Hok]. rewrite <- app_assoc in Hat.
+      destruct (read_prim_layout p c _ _ Hg Hr Hat) as [c1 [E1 A1]].
+      destruct (IH ((n, Z.land (hd 0 ws) mask) :: env) c1 (tl ws) rest (proj1 A1) Hok (proj2 (proj2 A1))) as [c2 [A2 E2]].
+      exists c2. split; [eapply advanced_trans; eassumption|].
+      cbn [read_items pure_items]. rewrite E1. cbn [bind]; cbv beta iota. rewrite E2.
+      destruct (pure_items rl _ _); reflexivity.
+    + destruct Hok as [Hk [Hl Hok]]. rewrite <- app_assoc in Hat.
+      destruct (read_slice_layout c _ _ Hg Hat) as [c1 [E1 A1]].
+      rewrite (firstn_len_Z ws k Hk Hl) in E1.
+      destruct (IH env c1 (skipn (Z.to_nat k) ws) rest (proj1 A1) Hok (proj2 (proj2 A1))) as [c2 [A2 E2]].
+      exists c2. split; [eapply advanced_trans; eassumption|].
+      cbn [read_items pure_items]. rewrite E1. cbn [bind]; cbv beta iota. rewrite E2.
+      destruct (pure_items rl _ _); reflexivity.
+Qed.
+
+(* Theorem B1: when the checks hold, they can be dropped *)
+Lemma pure_items_strip rl : forall env ws,
+  asserts_hold rl env ws = true -> pure_items rl env ws = pure_items (strip_asserts rl) env ws.
+Proof.
+  induction rl as [|it rl IH]; intros env ws H; [reflexivity|].
+  destruct it as [n p keep|n k|n p vals|n p mask|n k]; cbn [asserts_hold pure_items strip_asserts] in *.
+  - rewrite IH by exact H. reflexivity.
+  - destruct (lookup n env) as [v|]; [|discriminate]. apply andb_true_iff in H. destruct H as [H1 H2].
+    rewrite H1. apply IH. exact H2.
+  - rewrite IH by exact H. reflexivity.
+  - rewrite IH by exact H. reflexivity.
+  - rewrite IH by exact H. reflexivity.
+Qed.
+
+Lemma prim_eqb_eq a b : prim_eqb a b = true -> a = b.
+Proof. destruct a, b; cbn; congruence. Qed.
+
+Lemma firstn_app_exact {A} (a b : list A) n : length a = n -> firstn n (a ++ b) = a.
+Proof. intros <-. rewrite firstn_app, Nat.sub_diag. cbn. rewrite firstn_all, app_nil_r. reflexivity. Qed.
+Lemma skipn_app_exact {A} (a b : list A) n : length a = n -> skipn n (a ++ b) = b.
+Proof. intros <-. rewrite skipn_app, Nat.sub_diag. cbn. rewrite skipn_all. reflexivity. Qed.
+
+(* Theorem B2: a reader without checks, compatible with the writer, returns the values written *)
+Lemma pure_items_compat rl : forall wl env vs fill,
+  items_compat rl wl = true -> vals_okb rl vs = true ->
+  pure_items rl env (wire fill wl vs) = Ok (readback fill wl vs).
+Proof.
+  induction rl as [|it rl IH]; intros wl env vs fill Hc Hv; destruct wl as [|w wl]; cbn [items_compat] in Hc; try discriminate.
+  - reflexivity.
+  - apply andb_true_iff in Hc. destruct Hc as [Hi Hc].
+    destruct it as [n p keep|n k|n p vals|n p mask|n k]; destruct w as [m q|q j|m q|m q wv|m j];
+      cbn [item_compat] in Hi; try discriminate; try (destruct keep; discriminate).
+    + (* RRead / WField *) destruct keep; [|discriminate].
+      cbn [vals_okb] in Hv. destruct vs as [|v vs]; [discriminate|]. apply andb_true_iff in Hv. destruct Hv as [_ Hv].
+      cbn [wire pure_items readback hd tl]. rewrite (IH wl _ vs fill Hc Hv). reflexivity.
+    + (* RRead false / WConst *) destruct keep; [discriminate|].
+      cbn [vals_okb] in Hv. cbn [wire pure_items readback hd tl]. rewrite (IH wl _ vs fill Hc Hv). reflexivity.
+    + (* RRead / WHole *) destruct keep; [|discriminate].
+      cbn [vals_okb] in Hv. destruct vs as [|v vs]; [discriminate|]. apply andb_true_iff in Hv. destruct Hv as [_ Hv].
+      cbn [wire pure_items readback hd tl]. rewrite (IH wl _ vs fill Hc Hv). reflexivity.
+    + (* REnum / WEnum *)
+      cbn [vals_okb] in Hv. destruct vs as [|v vs]; [discriminate|].
+      apply andb_true_iff in Hv. destruct Hv as [Hv1 Hv]. apply andb_true_iff in Hv1. destruct Hv1 as [_ Hm].
+      cbn [wire pure_items readback hd tl]. rewrite Hm. rewrite (IH wl _ vs fill Hc Hv). reflexivity.
+    + (* RTrunc / WField *)
+      cbn [vals_okb] in Hv. destruct vs as [|v vs]; [discriminate|].
+      apply andb_true_iff in Hv. destruct Hv as [Hv1 Hv]. apply andb_true_iff in Hv1. destruct Hv1 as [_ Hm].
+      apply Z.eqb_eq in Hm.
+      cbn [wire pure_items readback hd tl]. rewrite Hm. rewrite (IH wl _ vs fill Hc Hv). reflexivity.
+    + (* RBytes / WBytes *)
+      apply andb_true_iff in Hi. destruct Hi as [Hi Hk0]. apply andb_true_iff in Hi. destruct Hi as [_ Hkj].
+      apply Z.eqb_eq in Hkj. subst j.
+      cbn [vals_okb] in Hv. apply andb_true_iff in Hv. destruct Hv as [Hv1 Hv]. apply andb_true_iff in Hv1. destruct Hv1 as [Hl _].
+      apply Nat.leb_le in Hl.
+      cbn [wire pure_items readback].
+      assert (length (firstn (Z.to_nat k) vs) = Z.to_nat k) as Hlen by (rewrite firstn_length; lia).
+      rewrite (skipn_app_exact _ _ _ Hlen), (firstn_app_exact _ _ _ Hlen).
+      rewrite (IH wl _ _ fill Hc Hv). reflexivity.
+Qed.
+
+Lemma rslots_strip rl : rslots (strip_asserts rl) = rslots rl.
+Proof. induction rl as [|it rl IH]; [reflexivity|]. destruct it; cbn [strip_asserts rslots]; rewrite ?IH; reflexivity. Qed.
+
+Lemma prim_in_range_0 p : prim_in_range p 0 = true.
+Proof. destruct p; reflexivity. Qed.
+
+(* the writer in terms of slots, and the wire values are in range *)
+Lemma write_items_enc rl : forall wl vs fill,
+  items_compat rl wl = true -> vals_okb rl vs = true ->
+  rslots rl = wslots wl /\
+  write_items fill wl vs = enc_slots (wslots wl) (wire fill wl vs) /\
+  slots_ok (wslots wl) (wire fill wl vs).
+Proof.
+  induction rl as [|it rl IH]; intros wl vs fill Hc Hv; destruct wl as [|w wl]; cbn [items_compat] in Hc; try discriminate.
+  - cbn. auto.
+  - apply andb_true_iff in Hc. destruct Hc as [Hi Hc].
+    destruct it as [n p keep|n k|n p vals|n p mask|n k]; destruct w as [m q|q j|m q|m q wv|m j];
+      cbn [item_compat] in Hi; try discriminate; try (destruct keep; discriminate).
+    + destruct keep; [|discriminate]. apply andb_true_iff in Hi. destruct Hi as [_ Hp]. apply prim_eqb_eq in Hp. subst q.
+      cbn [vals_okb] in Hv. destruct vs as [|v vs]; [discriminate|]. apply andb_true_iff in Hv. destruct Hv as [Hr Hv].
+      destruct (IH wl vs fill Hc Hv) as [H1 [H2 H3]].
+      cbn [rslots wslots write_items wire enc_slots slots_ok hd tl]. rewrite H1, H2. auto.
+    + destruct keep; [discriminate|]. apply andb_true_iff in Hi. destruct Hi as [Hp Hr]. apply prim_eqb_eq in Hp. subst q.
+      cbn [vals_okb] in Hv. destruct (IH wl vs fill Hc Hv) as [H1 [H2 H3]].
+      cbn [rslots wslots write_items wire enc_slots slots_ok hd tl]. rewrite H1, H2. auto.
+    + destruct keep; [|discriminate]. apply andb_true_iff in Hi. destruct Hi as [_ Hp]. apply prim_eqb_eq in Hp. subst q.
+      cbn [vals_okb] in Hv. destruct vs as [|v vs]; [discriminate|]. apply andb_true_iff in Hv. destruct Hv as [Hr Hv].
+      destruct (IH wl vs fill Hc Hv) as [H1 [H2 H3]].
+      cbn [rslots wslots write_items wire enc_slots slots_ok hd tl]. rewrite H1, H2.
+      repeat split; auto. destruct fill; [exact Hr|apply prim_in_range_0].
+    + apply andb_true_iff in Hi. destruct Hi as [Hi _]. apply andb_true_iff in Hi. destruct Hi as [_ Hp]. apply prim_eqb_eq in Hp. subst q.
+      cbn [vals_okb] in Hv. destruct vs as [|v vs]; [discriminate|].
+      apply andb_true_iff in Hv. destruct Hv as [Hv1 Hv]. apply andb_true_iff in Hv1. destruct Hv1 as [Hr _].
+      destruct (IH wl vs fill Hc Hv) as [H1 [H2 H3]].
+      cbn [rslots wslots write_items wire enc_slots slots_ok hd tl]. rewrite H1, H2. auto.
+    + apply andb_true_iff in Hi. destruct Hi as [Hi _]. apply andb_true_iff in Hi. destruct Hi as [Hi _].
+      apply andb_true_iff in Hi. destruct Hi as [_ Hp]. apply prim_eqb_eq in Hp. subst q.
+      cbn [vals_okb] in Hv. destruct vs as [|v vs]; [discriminate|].
+      apply andb_true_iff in Hv. destruct Hv as [Hv1 Hv]. apply andb_true_iff in Hv1. destruct Hv1 as [Hr _].
+      destruct (IH wl vs fill Hc Hv) as [H1 [H2 H3]].
+      cbn [rslots wslots write_items wire enc_slots slots_ok hd tl]. rewrite H1, H2. auto.
+    + apply andb_true_iff in Hi. destruct Hi as [Hi Hk0]. apply andb_true_iff in Hi. destruct Hi as [_ Hkj].
+      apply Z.eqb_eq in Hkj. subst j. apply Z.leb_le in Hk0.
+      cbn [vals_okb] in Hv. apply andb_true_iff in Hv. destruct Hv as [Hv1 Hv]. apply andb_true_iff in Hv1. destruct Hv1 as [Hl _].
+      apply Nat.leb_le in Hl.
+      destruct (IH wl _ fill Hc Hv) as [H1 [H2 H3]].
+      assert (length (firstn (Z.to_nat k) vs) = Z.to_nat k) as Hlen by (rewrite firstn_length; lia).
+      cbn [rslots wslots write_items wire enc_slots slots_ok].
+      rewrite (skipn_app_exact _ _ _ Hlen), (firstn_app_exact _ _ _ Hlen). rewrite H1, H2.
+      repeat split; auto. rewrite app_length. lia.
+Qed.
+
+(* ---------- the generic theorem.  For ANY reader rl and writer wl that pass the decidable
+   compatibility test, any field values vs within their host types / enum sets / bitflag masks that
+   satisfy the reader's checks, and any trailing bytes: reading what the writer wrote returns
+   exactly the values (placeholders as left by the writer) and stops exactly at the trailing bytes. *)
+Theorem layout_roundtrip rl wl fill vs rest c :
+  compat rl wl = true ->
+  vals_okb (strip_asserts rl) vs = true ->
+  asserts_hold rl [] (wire fill wl vs) = true ->
+  cgood c -> at_bytes c (write_items fill wl vs ++ rest) ->
+  exists c', read_items rl [] c = Ok (readback fill wl vs, c') /\ advanced c c' rest.
+Proof.
+  intros Hc Hv Ha Hg Hat. unfold compat in Hc.
+  destruct (write_items_enc _ wl vs fill Hc Hv) as [Hs [He Hok]].
+  rewrite rslots_strip in Hs. rewrite He, <- Hs in Hat. rewrite <- Hs in Hok.
+  destruct (read_items_pure rl [] c _ rest Hg Hok Hat) as [c' [Hadv Heq]].
+  exists c'. split; [|exact Hadv]. rewrite Heq.
+  rewrite (pure_items_strip rl [] _ Ha). rewrite (pure_items_compat _ wl [] vs fill Hc Hv). reflexivity.
+Qed.
+
+Lemma write_items_bytes_ok rl : forall wl vs fill,
+  items_compat rl wl = true -> vals_okb rl vs = true -> bytes_ok (write_items fill wl vs) = true.
+Proof.
+  induction rl as [|it rl IH]; intros wl vs fill Hc Hv; destruct wl as [|w wl]; cbn [items_compat] in Hc; try discriminate.
+  - reflexivity.
+  - apply andb_true_iff in Hc. destruct Hc as [Hi Hc].
+    destruct it as [n p keep|n k|n p vals|n p mask|n k]; destruct w as [m q|q j|m q|m q wv|m j];
+      cbn [item_compat] in Hi; try discriminate; try (destruct keep; discriminate);
+      cbn [vals_okb] in Hv; cbn [write_items]; rewrite bytes_ok_app.
+    + destruct keep; [|discriminate]. destruct vs as [|v vs]; [discriminate|]. apply andb_true_iff in Hv. destruct Hv as [_ Hv].
+      rewrite write_prim_ok. apply (IH wl vs fill Hc Hv).
+    + destruct keep; [discriminate|]. rewrite write_prim_ok. apply (IH wl vs fill Hc Hv).
+    + destruct keep; [|discriminate]. destruct vs as [|v vs]; [discriminate|]. apply andb_true_iff in Hv. destruct Hv as [_ Hv].
+      rewrite write_prim_ok. apply (IH wl vs fill Hc Hv).
+    + destruct vs as [|v vs]; [discriminate|]. apply andb_true_iff in Hv. destruct Hv as [_ Hv].
+      rewrite write_prim_ok. apply (IH wl vs fill Hc Hv).
+    + destruct vs as [|v vs]; [discriminate|]. apply andb_true_iff in Hv. destruct Hv as [_ Hv].
+      rewrite write_prim_ok. apply (IH wl vs fill Hc Hv).
+    + apply andb_true_iff in Hi. destruct Hi as [Hi _]. apply andb_true_iff in Hi. destruct Hi as [_ Hkj].
+      apply Z.eqb_eq in Hkj. subst j.
+      apply andb_true_iff in Hv. destruct Hv as [Hv1 Hv]. apply andb_true_iff in Hv1. destruct Hv1 as [_ Hb].
+      rewrite Hb. apply (IH wl _ fill Hc Hv).
+Qed.
+
+(* whole-buffer form *)
+Corollary layout_roundtrip_buffer rl wl fill vs rest :
+  compat rl wl = true -> vals_okb (strip_asserts rl) vs = true ->
+  asserts_hold rl [] (wire fill wl vs) = true ->
+  bytes_ok rest = true -> len (write_items fill wl vs ++ rest) < USIZE ->
+  exists c', read_items rl [] (ctxt_new (scope_new (write_items fill wl vs ++ rest))) = Ok (readback fill wl vs, c')
+             /\ at_bytes c' rest.
+Proof.
+  intros Hc Hv Ha Hb Hl.
+  assert (bytes_ok (write_items fill wl vs ++ rest) = true) as Hbb.
+  { rewrite bytes_ok_app, Hb, andb_true_r. exact (write_items_bytes_ok _ wl vs fill Hc Hv). }
+  destruct (table_ctxt_good _ Hbb Hl) as [Hg Hat].
+  destruct (layout_roundtrip rl wl fill vs rest _ Hc Hv Ha Hg Hat) as [c' [E [_ [_ A]]]]. eauto.
+Qed.
